@@ -51,6 +51,10 @@ def finish(ctx: Ctx, mod, wall: float, write_evidence: bool = True) -> int:
     extra = getattr(mod, "inconclusive_reasons", None)
     if extra is not None and ctx.replay_case is None:
         ctx.inconclusive.extend(extra(ctx) or [])
+    for wl in ("scenario", "direct_frames"):
+        n_exc, n_cases = ctx.counters.get(f"{wl}.exceptions", 0), ctx.counters.get(f"{wl}.cases", 0)
+        if ctx.replay_case is None and n_cases and n_exc > 0.2 * n_cases:
+            ctx.inconclusive.append(f"{wl}_workload_mostly_crashing:{n_exc}/{n_cases}")
     distinct = len(ctx.sigs)
     if ctx.replay_case is None and distinct < 2:
         ctx.inconclusive.append(f"too_few_distinct_nontrivial_cases:{distinct}")
